@@ -133,7 +133,9 @@ def cases(shard):
             toks = fm.tokenize(s)
             for i in range(len(toks) + 1):
                 for ins in ('(* note *)', '\n', '\\* line comment\n',
-                            '(* multi\nline *)', '  \t '):
+                            '(* multi\nline *)', '  \t ', '(* 2 * x *)',
+                            '(***** safety *****)', '(***)', '(**)',
+                            '(* a ) b ( *)', '\\* x (* y\n'):
                     t2 = toks[:i] + [ins] + toks[i:]
                     yield dict(kind='comment', base=s, s=' '.join(t2))
     elif k == 'flatten':
